@@ -77,6 +77,23 @@ fn report_failure(args: &Args, rep: &mut Report, ast: &OpeningHoursExpression, h
 pub fn run(args: &Args, rep: &mut Report) {
     let n = args.cases(360_000, 3_000_000);
     let sweep = if args.thorough() { 400 } else { 0 };
+    // exhaustive part: every value of every atomic field, printed and reparsed
+    for (i, ast) in atomic_asts().iter().enumerate() {
+        if (i as u64) % args.of.max(1) != args.worker {
+            continue;
+        }
+        rep.evaluations += 1;
+        let mut r = Rng::new(args.seed, 0xa70, i as u64);
+        match check(ast, &HolSpec::None, &mut r, 0) {
+            Ok(_) => rep.count("atomic_values_enumerated"),
+            Err(msg) => {
+                report_failure(args, rep, ast, &HolSpec::None, &msg);
+                if rep.full() {
+                    return;
+                }
+            }
+        }
+    }
     for k in 0..n {
         let cfg = GenCfg::standard(args.thorough()).rotated(k);
         let case = gen_case(args, k, &cfg, rep);
